@@ -240,6 +240,24 @@ fn judge_mesh(case: &Case, l: &mut Local) {
         let (va, vb) = (mesh.get_vertex_normals(), mt.get_vertex_normals());
         let vn_ok = va.len() == vb.len() && va.iter().zip(vb.iter()).all(|(x, y)| (rot(x) - y).norm() <= 1e-9 || (x.norm() < 1e-9 && y.norm() < 1e-9) || (!x.norm().is_finite() && !y.norm().is_finite()));
         l.check("mesh: face and vertex normals only rotate", "", fn_ok && vn_ok, mk, String::new);
+        // a UV lookup given the query in the other frame together with the transform
+        if f.len() <= 12 {
+            let flat: Vec<engeom::Point2> = v.iter().map(|p| engeom::Point2::new(p.x + 0.31 * p.z, p.y - 0.17 * p.z)).collect();
+            if let Ok(map) = engeom::geom3::UvMapping::new(flat, f.clone()) {
+                let mu = Mesh::new_with_uv(v.clone(), f.clone(), false, Some(map));
+                let t0 = f[0];
+                let on = Point3::from((v[t0[0] as usize].coords + v[t0[1] as usize].coords * 2.0 + v[t0[2] as usize].coords) / 4.0);
+                let away = iso.inverse_transform_point(&on);
+                let a = guarded(|| mu.uv_with_tol(&away, 0.5, 1.0, Some(&iso)));
+                let b = guarded(|| mu.uv_with_tol(&(iso * away), 0.5, 1.0, None));
+                let same = match (&a, &b) {
+                    (Ok(Some(x)), Ok(Some(y))) => (x.0 - y.0).norm() <= 1e-9 && (x.1 - y.1).abs() <= 1e-9,
+                    (Ok(None), Ok(None)) => true,
+                    _ => false,
+                };
+                l.check("mesh: a UV lookup with a transform is the lookup on the moved point", "", same, mk, || format!("{:?} vs {:?}", a, b));
+            }
+        }
         let bulk = engeom::common::points::transform_points(mesh.vertices(), &iso);
         let mean_a = engeom::common::points::mean_point(mesh.vertices());
         let mean_b = engeom::common::points::mean_point(&bulk);
@@ -429,6 +447,17 @@ fn judge_sp2(case: &Case, l: &mut Local) {
         let pairs = [(sp.shift_orthogonal(0.6).transformed(&iso), s1.shift_orthogonal(0.6)), (sp.rot_normal(0.7).transformed(&iso), s1.rot_normal(0.7)), (sp.rot_normal_90(engeom::AngleDir::Cw).transformed(&iso), s1.rot_normal_90(engeom::AngleDir::Cw)), (sp.reversed().transformed(&iso), s1.reversed())];
         let ok = pairs.iter().all(|(x, y)| d2(&x.point, &y.point) <= tol && (x.normal.into_inner() - y.normal.into_inner()).norm() <= 1e-9);
         l.check("sp2: shifting, turning and reversing commute with the motion", "", ok, mk, String::new);
+        // angles between vectors are scalars: turning both vectors changes neither the signed nor the directed
+        // angle (judged up to a full turn, which is the same direction)
+        let others = [Vector2::new(1.0, 0.0), Vector2::new(-1.0, 0.2), Vector2::new(-0.5, -2.0), Vector2::new(0.3, 0.4), Vector2::new(0.0, -1.0)];
+        for w in others {
+            let (rv, rw) = (iso.rotation * nv, iso.rotation * w);
+            let same = |a: f64, b: f64| (a - b).abs() <= 1e-9 || ((a - b).abs() - std::f64::consts::TAU).abs() <= 1e-9;
+            let sa = (engeom::geom2::signed_angle(&nv, &w), engeom::geom2::signed_angle(&rv, &rw));
+            let da = (engeom::geom2::directed_angle(&nv, &w, engeom::AngleDir::Ccw), engeom::geom2::directed_angle(&rv, &rw, engeom::AngleDir::Ccw));
+            let pi_amb = (sa.0.abs() - std::f64::consts::PI).abs() <= 1e-9;
+            l.check("signed and directed angles between vectors are unchanged by turning both", "", ((sa.0 - sa.1).abs() <= 1e-9 || (pi_amb && same(sa.0, sa.1))) && same(da.0, da.1) && sa.1.abs() <= std::f64::consts::PI + 1e-12, mk, || format!("{:?} {:?}: signed {} vs {}, ccw {} vs {}", nv, w, sa.0, sa.1, da.0, da.1));
+        }
     }
     let back = s1.transformed(&iso.inverse());
     l.check("sp2: inverse motion restores", "", d2(&back.point, &sp.point) <= tol && (back.normal.into_inner() - sp.normal.into_inner()).norm() <= 1e-9, mk, String::new);
